@@ -104,7 +104,8 @@ def run(rng: Rng, tier: str, index: int) -> RunResult:
                     break
                 given_kid = key.kid
                 # history of calls touching the lazy state
-                events = [krng.pick(["thumbprint", "as_dict", "ensure_kid", "keyset", "as_dict_public", "keyset_as_dict", "kid"])
+                events = [krng.pick(["thumbprint", "as_dict", "ensure_kid", "keyset", "as_dict_public", "keyset_as_dict", "kid", "as_dict_public",
+                                     "keyset_as_dict_public"])
                           for _ in range(krng.randrange(2, 7))]
                 first_auto = None
                 for pos, ev in enumerate(["thumbprint"] + events + ["thumbprint"]):
@@ -117,9 +118,19 @@ def run(rng: Rng, tier: str, index: int) -> RunResult:
                                      "thumbprint via %s (%s) is %s, RFC 7638 value %s" % (name, digest, got, want[digest]),
                                      {"rep": name, "digest": digest})
                         elif ev == "as_dict":
-                            key.as_dict()
+                            exported = key.as_dict()
+                            if key.kid is not None and exported.get("kid") != key.kid:
+                                viol("kid:export-differs", "as_dict() carries kid %r, the key has %r" % (exported.get("kid"), key.kid), {"rep": name})
                         elif ev == "as_dict_public" and material.kty != "oct":
-                            key.as_dict(private=False)
+                            exported = key.as_dict(private=False)
+                            if key.kid is not None and exported.get("kid") != key.kid:
+                                viol("kid:export-differs", "as_dict(private=False) carries kid %r, the key has %r (events so far %r)" % (
+                                    exported.get("kid"), key.kid, (["thumbprint"] + events)[:pos + 1]), {"rep": name})
+                        elif ev == "keyset_as_dict_public" and material.kty != "oct":
+                            d = KeySet([key]).as_dict(private=False)
+                            if d["keys"][0].get("kid") != key.kid:
+                                viol("kid:keyset-export-differs", "public KeySet export carries kid %r, key has %r (events so far %r)" % (
+                                    d["keys"][0].get("kid"), key.kid, (["thumbprint"] + events)[:pos + 1]), {"rep": name})
                         elif ev == "ensure_kid":
                             key.ensure_kid()
                         elif ev == "keyset":
@@ -145,6 +156,32 @@ def run(rng: Rng, tier: str, index: int) -> RunResult:
                         elif kid != first_auto:
                             viol("kid:unstable", "automatic kid changed from %r to %r" % (first_auto, kid))
                 tr.add(label, name, digest)
+        # the JWK dict a key was imported from stays the caller's: re-filling it for the next key, or labelling it afterwards,
+        # must not reach the first key, and the key's lazy kid must not appear in it
+        try:
+            other = S.gen_material(krng.sub("template-other"), kind)
+            tmpl = rk.to_jwk(material, True)
+            given = copy.deepcopy(tmpl)
+            k1 = S.jose_cls(material.kty).import_key(tmpl)
+            if krng.chance(0.5):
+                k1.ensure_kid()
+                if tmpl != given:
+                    viol("kid:callers-jwk-altered", "the dict a key was imported from was changed by ensure_kid(): %r" % (
+                        {k: v for k, v in tmpl.items() if given.get(k) != v},), {"rep": "template-dict"})
+            tmpl.update(rk.to_jwk(other, True))
+            tmpl["kid"] = "relabelled-later"
+            k2 = S.jose_cls(material.kty).import_key(tmpl)
+            res.case(label, "template-dict")
+            res.fired("callers-jwk-dict-reused")
+            t1, t2 = k1.thumbprint(), k2.thumbprint()
+            KeySet([k1])
+            if t1 != want["sha256"] or k1.kid != want["sha256"]:
+                viol("thumbprint:follows-callers-dict", "after the caller re-filled the dict the key was imported from, its thumbprint is %r and kid %r; "
+                     "the RFC 7638 value of its material is %r" % (t1, k1.kid, want["sha256"]), {"rep": "template-dict"})
+            if t2 != rk.thumbprint(other) or k2.kid != "relabelled-later":
+                viol("thumbprint:template-second-key", "second key from the re-filled dict: thumbprint %r kid %r" % (t2, k2.kid), {"rep": "template-dict"})
+        except Exception as e:
+            viol("history:template-dict:failed", "%s: %s" % (type(e).__name__, str(e)[:100]))
         # several keys created with ONE parameters dict object: every key gets its own thumbprint kid, the dict is not written to
         try:
             shared = dict(krng.pick([{"use": "sig"}, {"alg": "X"}, {"use": "enc", "key_ops": ["encrypt"]}, {}]))
@@ -258,9 +295,33 @@ def replay(repro: dict):
             if [k.kid for k in gs.keys] != [rk.thumbprint(S.material_of(k)) for k in gs.keys]:
                 out.append(("kid:auto-differs-from-thumbprint", "generate_key_set"))
         return out
+    if repro.get("rep") == "template-dict":
+        other = S.gen_material(Rng("replay-template"), (material.kty, material.crv if material.kty in ("EC", "OKP") else (2048 if material.kty == "RSA" else None)))
+        tmpl = rk.to_jwk(material, True)
+        given = copy.deepcopy(tmpl)
+        k1 = S.jose_cls(material.kty).import_key(tmpl)
+        k1.ensure_kid()
+        if tmpl != given:
+            out.append(("kid:callers-jwk-altered", repr(tmpl.get("kid"))))
+        k1 = S.jose_cls(material.kty).import_key(tmpl := copy.deepcopy(given))
+        tmpl.update(rk.to_jwk(other, True))
+        tmpl["kid"] = "relabelled-later"
+        KeySet([k1])
+        if k1.thumbprint() != want["sha256"] or k1.kid != want["sha256"]:
+            out.append(("thumbprint:follows-callers-dict", "thumbprint %r kid %r" % (k1.thumbprint(), k1.kid)))
+        return out
     for name, f in reps:
         for digest in ("sha256", "sha384", "sha512"):
             try:
+                if material.kty != "oct":
+                    kx = f(subclass_for(material.kty, digest))
+                    if kx.kid is None:
+                        kx.as_dict(private=False)
+                        kx.ensure_kid()
+                        if kx.as_dict(private=False).get("kid") != kx.kid:
+                            out.append(("kid:export-differs", "%s %s" % (name, digest)))
+                        if KeySet([kx]).as_dict(private=False)["keys"][0].get("kid") != kx.kid:
+                            out.append(("kid:keyset-export-differs", "%s %s" % (name, digest)))
                 key = f(subclass_for(material.kty, digest))
                 if key.thumbprint() != want[digest]:
                     out.append(("thumbprint:%s:differs-from-rfc7638" % material.kty, "%s %s" % (name, digest)))
